@@ -133,6 +133,7 @@ fn run_spec(spec: &Spec) -> common::Report {
         "client2" => sc_client::run(spec),
         "sock-unbuf" => sock::unbuffered(spec),
         "sock-buf" => sock::buffered(spec),
+        "sock-conn" => sock::connected_udp(spec),
         "sock-faults" => sock::stats_faults(spec),
         "spyq" => sock::spy_bounded(spec),
         "sock-volume" => sock::stats_volume(spec),
